@@ -220,6 +220,7 @@ Origin* Binding::AddOrigin(CFGNode* node,
 }
 
 Origin* Binding::AddOrigin(CFGNode* node, const SourceSet& source_set) {
+  program_->InvalidateSolver();
   Origin* origin = FindOrAddOrigin(node);
   origin->AddSourceSet(source_set);
   return origin;
